@@ -5,6 +5,7 @@ from .isomsg import *
 from .decode import *
 
 PROPERTY = 'C08'
+PYTHON_O = ['single/latin_1/bin', 'pds-carrier/DE48']      # obligations that are also explored with the modules compiled as under python -O
 ASSUMPTIONS = [
     'incoming message = concrete MTI + concrete bitmap from a family (every single configured element, pairs, triples) + opaque data bytes of '
     'symbolic total length; every numeral the decoder parses is a nondeterministic int() outcome (ValueError or any integer representable in '
@@ -67,8 +68,33 @@ def framing(pick, enc, hexbm, nmax, sub=True, bit1=True):
                         require(found is not None, 'sub-element %s missing' % (key,), key='C08/sub', replay=rp)
         else:
             if rej is None and isinstance(err, iso.Iso8583DataError):
-                fail('decoder refused a well-framed message: %s' % (err.args[:1],), key='C08/too-strict', replay=rp)
+                # numerals that are not plain decimal digits are a don't-care for acceptance
+                require(s_not(all_numerals_plain()), 'decoder refused a well-framed message: %s' % (err.args[:1],), key='C08/too-strict', replay=rp)
         return {'sample': {'bits': bits, 'len': ev(rlen(data)), 'accepted': d is not None, 'strict': rej or 'accept'}, 'replay': rp()}
+    return h
+
+
+def short_header(enc, hexbm):
+    """anything shorter than MTI + complete bitmap is not a message: decoding must not return a result"""
+    def h():
+        core.FUEL.set(40)
+        models.ABSTRACT_BITMAPS[0] = True
+        iso = M().iso8583
+        hl = 36 if hexbm else 20
+        n = sym_int('n', 0, hl - 1)
+        src = Source('msg', 'b', n)
+        msg = src.rope() if not (isinstance(n, int) and n == 0) else b''
+
+        def rp():
+            return {'kind': 'loads', 'args': {'data': witness_bytes(msg), 'enc': enc, 'hexbm': hexbm}}
+        core.set_fallback(rp, 'C08/concretised')
+        try:
+            d = iso.loads(msg, encoding=enc, hex_bitmap=hexbm)
+        except core.ControlFlow:
+            raise
+        except Exception:
+            return {'sample': {'n': ev(n), 'accepted': False}, 'replay': rp()}
+        fail('decoder accepted %s bytes, less than MTI and bitmap' % ev(n), key='C08/misframed/short-header', replay=rp)
     return h
 
 
@@ -84,6 +110,9 @@ def obligations(tier):
                       'each configured non-PDS/ICC element alone, data length 0..%d' % nmax, _funcs, 'bitmaps outside the family; longer data'))
         obs.append(Ob('pairs/' + tag, framing(lambda: choose('bits', pairs), enc, hexbm, nmax, sub=False), 900,
                       '%d element pairs, data length 0..%d (sub-element walkers not compared here)' % (len(pairs), nmax), _funcs))
+    for enc, hexbm in (('latin_1', False), ('cp500', True)):
+        obs.append(Ob('short-header/%s/%s' % (enc, 'hex' if hexbm else 'bin'), short_header(enc, hexbm), 300,
+                      'every input of 0..%d bytes (shorter than MTI + bitmap), arbitrary content' % ((36 if hexbm else 20) - 1), _funcs))
     obs.append(Ob('bit1-clear/latin_1', framing(lambda: choose('bits', [[2, 71], [63, 71], [93, 94], [3, 127], [65 - 2, 66 + 5]]), 'latin_1', False, 20, sub=False, bit1=False), 600,
                   'incoming bitmaps with bit 1 clear and elements above 64 flagged (the bitmap is always 16 bytes): framing must not depend on bit 1', _funcs))
     obs.append(Ob('triples/latin_1', framing(lambda: choose('bits', triples), 'latin_1', False, 16 if q else 26, sub=False), 900,
